@@ -5,7 +5,9 @@ Cases (JSON):
   {"entry": "sympy", "fam": family, "prems": [] | [interval membership], "concl": term, "hyps": [[...]]}
 terms are in the vlib.codec encoding.  See RULE / ASSUMPTIONS below and vlib/c06_lib.py for the oracle.
 """
+import contextlib
 import os
+import signal
 import sys
 from fractions import Fraction
 
@@ -38,13 +40,32 @@ ASSUMPTIONS = [
     "a counter-model may interpret the type variable 'a by any finite non-empty universe",
     "holpy semantics of the library constants as pinned in vlib/arith.py and vlib/c06_lib.py: truncated nat minus, "
     "x / 0 = 0, real_inverse 0 = 0, x ^ 0 = 1, min/max/abs as in the order theory",
-    "the SymPy step is called with a wall-clock limit of 30 s per goal (hit = inconclusive)",
+    "each call of the code under test runs under a CPU-time limit (z3 step 40 s, SymPy step 25 s; hit = inconclusive)",
 ]
 Z3_RLIMIT = 2500000
+WRAPPER_CPU_S = 40
+SYMPY_CPU_S = 25
 ASSUMPTIONS[0] = ASSUMPTIONS[0] % Z3_RLIMIT
 MAXTASKS = 1            # every shard starts from the parent's z3 / sympy state: results do not depend on scheduling
 SHRINK_SECONDS = 90
 SHRINK_BUDGET = 60
+
+
+
+@contextlib.contextmanager
+def cpu_limit(seconds):
+    """Like harness.time_limit but counts the CPU time (user+sys) of this process, so that the verdict does not
+    depend on the load of the machine."""
+    def handler(signum, frame):
+        raise Timeout()
+    old = signal.signal(signal.SIGPROF, handler)
+    signal.setitimer(signal.ITIMER_PROF, seconds)
+    try:
+        yield
+    finally:
+        signal.setitimer(signal.ITIMER_PROF, 0)
+        signal.signal(signal.SIGPROF, old)
+
 
 NAT, INT, REAL, TA = ["tc", "nat"], ["tc", "int"], ["tc", "real"], ["tv", "a"]
 
@@ -1089,7 +1110,7 @@ def call_z3(entry, prems, concl, hyps):
     _hol['theory'].thy = _hol['thy']
     Implies, Thm = _hol['term'].Implies, _hol['Thm']
     try:
-        with time_limit(60):
+        with cpu_limit(WRAPPER_CPU_S):
             if entry == 'solve':
                 r = z3wrapper.solve(Implies(*(list(prems) + [concl])))
                 return ('accepted', None) if r is True else ('rejected', 'not solved')
@@ -1122,8 +1143,10 @@ def find_countermodel(P, Cn, seed, H=None):
             except L.Unsupported:
                 if H is not None:
                     H.note('reference_model_unreadable')
-    except L.Unsupported:
+    except L.Unsupported as e:
         status = 'unsupported'
+        if H is not None:
+            H.note('reference_encoding_unsupported:' + ' '.join(str(e).split(' ')[:3]))
     except Exception as e:       # z3 errors inside the oracle are never a verdict
         if H is not None:
             H.note('oracle_z3_error:' + type(e).__name__)
@@ -1306,7 +1329,7 @@ def run_sympy(case, H):
     try:
         sys.stdout = open(os.devnull, 'w')       # solve_with_interval prints on sympy errors
         try:
-            with time_limit(30):
+            with cpu_limit(SYMPY_CPU_S):
                 ok = macro.can_eval(concl, prevs)
             verdict = 'accepted' if ok is True else 'rejected'
             if ok is not True and ok is not False:
@@ -1319,7 +1342,7 @@ def run_sympy(case, H):
         th = None
         if verdict != 'timeout':
             try:
-                with time_limit(30):
+                with cpu_limit(SYMPY_CPU_S):
                     th = macro.eval(concl, prevs)
             except Timeout:
                 verdict = 'timeout'
